@@ -8,6 +8,25 @@ from .astutil import norm
 from .loader import FuncInfo
 
 VERIF = os.path.dirname(os.path.dirname(os.path.dirname(os.path.abspath(__file__))))
+RESTRUCTURED_LIMIT = 12      # more differing statements than this: the function was rewritten, not edited
+RESTRUCTURED_SIM = 0.35      # ... or less than this similarity with at least RESTRUCTURED_MIN differing statements (small functions)
+RESTRUCTURED_MIN = 6
+# Verdicts of the dataflow / abstract-interpretation engines and "bad construct found" rules do not depend on the statement shape of
+# the function: they are never downgraded to "cannot decide".  (prefixes of rule names, per property)
+SHAPE_INDEPENDENT = {
+    'C01': ('A.', 'B1.', 'B2.', 'B3.', 'B4.', 'B5.', 'B6.', 'B7.'),
+    'C02': ('C.returned-labels-canonical', 'S.scaling-uses-true-totals'),
+    'C04': ('L.', 'U.', 'P.', 'I.no-literal'),
+    'C05': ('R',),
+    'C06': ('B9.', 'B1.', 'B2.', 'B3.', 'B4.', 'B5.', 'B7.'),
+    'C08': ('D.every-predecessor',),
+    'C11': ('B4.', 'B11.no-accept-with-veto'),
+    'C13': ('A.',),
+    'C14': ('C.raw-labels', 'L.module-loop', 'K.'),
+    'C15': ('K.no-core-level-skipped',),
+    'C16': ('D.no-mutation-of-iterated-list', 'A.'),
+    'C17': ('A.',),
+}
 
 
 class Ob:
@@ -49,6 +68,7 @@ class Report:
         self.explanation = ''
         self.t0 = time.time()
         self.selftest = None
+        self.restructured = {}    # {relpath::qualname: statements differing from the analysed shape} (sa/core/alpha.py)
 
     # -- recording ----------------------------------------------------------
     def ob(self, rule, fn, construct, ok, why='', line=None):
@@ -101,6 +121,19 @@ class Report:
         with open(p) as f:
             return json.load(f)
 
+    def _distance(self, o):
+        """largest shape distance among the functions an obligation names (None if none of them changed)"""
+        best = None
+        names = [p_.strip() for p_ in o.function.split(' / ') if p_.strip()]
+        for key, ds in self.restructured.items():
+            rel, q = key.split('::', 1)
+            if rel not in o.module:
+                continue
+            for nm in names:
+                if q == nm or q.startswith(nm + '.') or nm.startswith(q + '.'):
+                    best = tuple(ds) if best is None else (max(best[0], ds[0]), min(best[1], ds[1]))
+        return best
+
     # -- finishing ------------------------------------------------------------
     def violations(self):
         return [o for o in self.obs if o.status == 'violation']
@@ -113,6 +146,19 @@ class Report:
             if not o.ok and o.key() in kmap:
                 o.status = 'known'
                 seen_known.add(o.key())
+        # A function that differs from the shape the rules were written against in more than RESTRUCTURED_LIMIT statements was
+        # rewritten, not edited: shape rules cannot be evaluated on it.  Their failures are then "cannot decide" (analysis error,
+        # exit 2), not a claim that the property is violated.
+        undecided = {}
+        for o in self.obs:
+            if o.status == 'violation' and not o.rule.startswith(SHAPE_INDEPENDENT.get(self.pid, ('\0',))):
+                ds = self._distance(o)
+                if ds is not None and (ds[0] > RESTRUCTURED_LIMIT or (ds[1] < RESTRUCTURED_SIM and ds[0] >= RESTRUCTURED_MIN)):
+                    o.status = 'undecided'
+                    undecided.setdefault((o.module, o.function, ds), []).append(o.rule)
+        for (mod_, fn_, ds), rules in sorted(undecided.items()):
+            self.errors.append('%s %s was restructured (%d statements differ from the analysed shape, similarity %.2f): cannot decide rule(s) %s on it' % (
+                mod_, fn_, ds[0], ds[1], ', '.join(sorted(set(rules)))))
         # floors
         for prefix, minimum in self.floors:
             cnt = sum(1 for o in self.obs if o.rule.startswith(prefix))
@@ -163,7 +209,7 @@ class Report:
         distinct = len({o.key() for o in self.obs})
         rules = {}
         for o in self.obs:
-            r = rules.setdefault(o.rule, {'instances': 0, 'ok': 0, 'known': 0, 'violation': 0})
+            r = rules.setdefault(o.rule, {'instances': 0, 'ok': 0, 'known': 0, 'violation': 0, 'undecided': 0})
             r['instances'] += 1
             r[o.status] += 1
         samples = []
